@@ -48,7 +48,7 @@ CLAIMS = {
              "rounding radius, compared with the documented transform (evaluation at omega^(1+4 bitrev j)). A sound unit-input alarm rule "
              "derived from the property decides violations (replayed natively against a long-double DFT); the all-input norm-wise constant "
              "itself is certified component-wise only (numbers in evidence). Tables read-only and memory safety by the bit-precise run; the placement of table and work buffers "
-             "by the real new_*_precomp(m, num_buffers) builders (run symbolically, sin/cos values arbitrary) is decided for m <= 32: writes to every work buffer leave the table bit-identical.",
+             "by the real new_*_precomp(m, num_buffers) builders (run symbolically, sin/cos values arbitrary) is decided for m <= 8 (address form). For EVERY m = 32..65536 the AVX2 reim drivers issue exactly the passes of the reference drivers (kernels replaced by logging stand-ins via goto-instrument, drivers executed concretely by the symbolic engine).",
         note="cbmc 6.11 symex + vcalg (own re-interpreter) + mpmath; standard rounding model, no over/underflow; tables and kernel selection "
              "dumped natively from the real builders; m>64 (256) and AVX-512/SSE units outside",
         technique="CBMC symbolic execution of the real code, exported VC re-interpreted in a real-arithmetic domain with rounding radii (vcalg); bit-precise CBMC run for memory/frame; native replay",
@@ -67,7 +67,7 @@ CLAIMS = {
              "atoms for masks/shifts/%, sign-aware for the int64/int128 conversions). Every output lane is proved congruent to its specification "
              "modulo its prime as a polynomial identity with integer witness (cross-checked by cvc5 QF_NIA), for ALL operand values of each layout, "
              "ell in 0..3 (8 thorough) executed in full and EVERY ell <= 10000 by loop summarisation (accumulator increments + epilogue on symbolic accumulators, see C04); every intermediate "
-             "add/mul/shift carries a discharged no-wrap obligation; b->int128 is the centered lift.",
+             "add/mul/shift carries a discharged no-wrap obligation; b->int128 is the centered lift; block extract / save are exact mutually inverse copies (bit-precise).",
         note="cbmc 6.11 symex + own integer re-interpreter + cvc5; c-layout contract assumed; product precomputations dumped from the real builders; "
              "the summarisation assumes iterations beyond the 6 unrolled ones run the same loop body",
         technique="CBMC symbolic execution of the real code, exported VC re-interpreted as integer polynomials with intervals (vcalg) + cvc5 QF_NIA identity checks; native replay",
@@ -107,7 +107,7 @@ CLAIMS = {
              "fill_module_precomp/fill_virtual_table, FFT kernels ref/AVX2/.s - are executed symbolically for N in {2..32} (64 thorough) with all operand coefficients symbolic; "
              "the exported VC is re-interpreted over the reals: every pre-rounding output is m times the negacyclic bilinear form up to coefficient deviations and rigorous "
              "rounding radii. Certified: |result-(a*b)_k| <= kappa*log2(N)*2^-53*|a|_1|b|_1 + 1/2 with kappa measured (in evidence), hence exactness below that bound; a sound "
-             "alarm rule on scaled unit inputs decides violations (replayed natively against an exact 128-bit product). The property's 2-norm constant itself is not decided.",
+             "alarm rule on scaled unit inputs decides violations (replayed natively against an exact 128-bit product). The property's 2-norm constant itself is not decided. Also: the small product written over either operand (operand-integrity tags in the conversion stubs), rows beyond the input size exactly zero incl. empty input (bit-precise), and the conversion kernels the module really carries against the contracts the analysis substitutes.",
         note="cbmc 6.11 symex + vcalg real domain; C14 contracts substituted for the two conversion kernels (stubs); standard rounding model; N>32 (64) outside",
         technique="CBMC symbolic execution of the real pipeline, exported VC re-interpreted as exact real polynomials with rounding radii (vcalg); bit-precise zero-row/frame obligations in C11/C18; native replay",
         ref="DESIGN.md 4/C01"),
@@ -121,9 +121,9 @@ CLAIMS = {
     "C11": dict(
         text="Every DFT-space public entry point (fft64 and ntt120 dft/idft/idft_tmp_a, svp, small product, vmp prepare/apply/apply_dft_to_dft, ref and AVX) and a slice of the "
              "coefficient-space ones run on exactly-sized heap objects sized by the real bytes_of_*/ *_tmp_bytes functions, all data symbolic: CBMC's pointer and bounds checks "
-             "decide that no access leaves a declared extent, for limb counts 0..3(5), nrows/ncols to 3x5, strides, 8/16/24-byte misalignment, both cpu flags.",
+             "decide that no access leaves a declared extent, for limb counts 0..3(5), nrows/ncols to 3x5, strides (incl. equal padded strides for every operand), 8/16/24-byte misalignment, both cpu flags; new_/delete_ pairs under --memory-leak-check: heap MODULE filled by the real fill_module_precomp and released by the real delete_module_info, the object allocators, and the REAL q120 NTT table builders (n = 1, 2, 4) with their delete functions.",
         note="cbmc 6.11 (formula sliced: FP values do not matter); module built by the real fill_module_precomp with the four trig/level table builders redirected to dumped tables; "
-             "leak checks of new/delete pairs not included; one known finding (NTT120 bytes_of_*)",
+             "one known finding (NTT120 bytes_of_*); FFT table builders are not run under the leak check (libm)",
         technique="CBMC bounded model checking (pointer/bounds checks on exactly-sized objects, SAT) of the real entry points; native ASan replay",
         ref="DESIGN.md 4/C11"),
     "C12": dict(
@@ -141,7 +141,7 @@ CLAIMS = {
     "C15": dict(
         text="(1) three/four-call histories f(M1,P1); f(M2,P2); [f(M1,P2);] f(M1,P1) through every CBMC-executable *_simple caching entry point against a freshly initialised "
              "table, one parameter changed at a time: outputs compared as uninterpreted terms (equal terms => equal bits), cross-checked by z3 QF_UF; (2) integer entry points with "
-             "nondeterministic previous contents of outputs: result is a function of the inputs only; (3) DFT-space entry points at buffer offsets 0/8/24 (extents) and the product pipelines at N=16 with scratch buffers 8/24/56 bytes past a 64-byte boundary (values: same exact polynomial).",
+             "nondeterministic previous contents of outputs: result is a function of the inputs only; (3) DFT-space entry points at buffer offsets 0/8/24 (extents) and the product pipelines at N=16 with scratch buffers 8/24/56 bytes past a 64-byte boundary (values: same exact polynomial), matrix pipelines with an empty input on arbitrary scratch (no output term mentions scratch), the inverse DFT in place with junk beyond the input size.",
         note="cbmc 6.11 symex + vcalg UF domain + z3; histories of length <= 4; reim/cplx (i)fft_simple not executable symbolically (builder casts pointers through integers)",
         technique="CBMC symbolic execution, exported VC compared in an uninterpreted-function domain (hash-consed terms, z3 QF_UF cross-check); CBMC SAT for the integer entry points; native replay",
         ref="DESIGN.md 4/C15"),
@@ -156,7 +156,7 @@ CLAIMS = {
         text="Pairwise: znx add/sub/negate AVX vs ref bit for bit on the same symbolic data (sizes 1..16, unaligned buffers); rnx_divide_by_m AVX vs ref as equal "
              "uninterpreted terms; every other accelerated kernel through the obligation families of C06 (FFT ref/AVX2/.s both equal the documented DFT within "
              "their radii), C17 (layout kernels bit for bit, dot products / pointwise kernels with the SAME exact polynomial for ref and FMA), C14 (conversions: same "
-             "bit-precise contract), C10 (q120 products ref/AVX2 congruent to the same sum), and the public API under both cpu flags (C08 slice, product pipelines).",
+             "bit-precise contract), C10 (q120 products ref/AVX2 congruent to the same sum, every ell <= 10000 by loop summarisation), the reim FFT/iFFT driver schedules AVX2 = reference pass for pass for every m up to 65536, and the public API under both cpu flags (C08 slice, product pipelines).",
         note="cbmc 6.11 + shim + vcalg; AVX-512, SSE, NEON units are not encoded; floating-point pairs are related through equal exact-semantics polynomials + reported radii",
         technique="CBMC bounded model checking (SAT) for integer/data-movement pairs; CBMC symbolic execution + vcalg (UF / real / integer domains) for the rest; native replay",
         ref="DESIGN.md 4/C07, A.2"),
